@@ -240,10 +240,17 @@ func (i *Iterator) autoNext(ctx context.Context) bool {
 		i.err = err
 		return false
 	}
-	if endApprox.Lower.After(i.bounds.End) {
+	// When the view starts between two samples the stamp is inexact: its lower bound
+	// is the last sample of the chunk, its upper bound the first sample after it. The
+	// view must end at the latter for the chunk's last sample to lie inside it.
+	viewEnd := endApprox.Lower
+	if endApprox.Upper != telem.TimeStampMax {
+		viewEnd = endApprox.Upper
+	}
+	if viewEnd.After(i.bounds.End) {
 		return i.Next(ctx, i.view.Start.Span(i.bounds.End))
 	}
-	i.view.End = endApprox.Lower
+	i.view.End = viewEnd
 	i.reset(i.view.BoundBy(i.bounds))
 
 	nRemaining := i.AutoChunkSize
